@@ -16,8 +16,11 @@ import time
 import traceback
 
 ROOT = os.path.dirname(os.path.dirname(os.path.abspath(__file__)))
-EVID = os.path.join(ROOT, 'evidence')
-REPLAYS = os.path.join(ROOT, 'out', 'replays')
+# VERIF_SCRATCH redirects evidence and replay files (used when a check is pointed at a scratch copy of the repository
+# with VERIF_REPO, e.g. to try a seeded change without touching /repo or the committed evidence)
+_OUT = os.environ.get('VERIF_SCRATCH')
+EVID = os.path.join(_OUT, 'evidence') if _OUT else os.path.join(ROOT, 'evidence')
+REPLAYS = os.path.join(_OUT, 'replays') if _OUT else os.path.join(ROOT, 'out', 'replays')
 
 PY_SEMANTICS = [
     "python int is mathematical (true); float is treated as a real, NaN/inf only where a contract models them",
